@@ -864,6 +864,9 @@ class XsdElement(XsdComponent, ParticleMixin,
                 counter.enabled = False
                 if isinstance(identity, XsdKeyref):
                     assert isinstance(counter, KeyrefCounter)
+                    if counter.refer is not None and counter.refer not in context.identities:
+                        # No element that declares the referred constraint has been met
+                        context.identities[counter.refer] = counter.refer.get_counter(obj)
                     for error in counter.iter_errors(context.identities):
                         context.validation_error(validation, self, error, obj)
         elif context.level:
